@@ -264,6 +264,10 @@ def run_check(modname, tier, seed, nproc=None, quiet=True):
     finally:
         shutil.rmtree(run_root, ignore_errors=True)
     results.sort(key=lambda r: r["case_index"])
+    if os.environ.get("KV_SLOW"):          # development aid: the slowest cases
+        for r in sorted(results, key=lambda r: -r["wall"])[:int(os.environ["KV_SLOW"])]:
+            print("SLOW %.2fs case %d %s" % (r["wall"], r["case_index"], json.dumps(cases[r["case_index"]], default=str)[:300]))
+        print("SUM of case walls %.1fs" % sum(r["wall"] for r in results))
 
     import numpy as np
     all_keys = []
